@@ -2,7 +2,11 @@ use parking_lot::RwLock;
 use std::collections::{hash_map::RandomState, HashMap};
 use std::hash::BuildHasher;
 use std::ops::{Deref, DerefMut};
-use std::time::{Duration, SystemTime, UNIX_EPOCH};
+#[cfg(transparencies_stretto_verif)]
+use crate::verif::clock::SystemTime;
+#[cfg(not(transparencies_stretto_verif))]
+use std::time::SystemTime;
+use std::time::{Duration, UNIX_EPOCH};
 
 use crate::CacheError;
 
@@ -55,6 +59,11 @@ impl Time {
 
     pub fn is_expired(&self) -> bool {
         self.created_at.elapsed().map_or(false, |d| d >= self.d)
+    }
+
+    #[cfg(transparencies_stretto_verif)]
+    pub(crate) fn verif_parts(&self) -> (u64, u64) {
+        (self.d.as_nanos() as u64, self.created_at.unix_ns())
     }
 
     pub fn get_ttl(&self) -> Duration {
@@ -209,6 +218,15 @@ impl<S: BuildHasher + Clone + 'static> ExpirationMap<S> {
 
     pub fn hasher(&self) -> S {
         self.hasher.clone()
+    }
+
+    #[cfg(transparencies_stretto_verif)]
+    pub(crate) fn verif_buckets(&self) -> Vec<(i64, Vec<(u64, u64)>)> {
+        self.buckets
+            .read()
+            .iter()
+            .map(|(b, m)| (*b, m.map.iter().map(|(k, c)| (*k, *c)).collect()))
+            .collect()
     }
 }
 
